@@ -12,6 +12,7 @@
 -/
 import YtkProofs.Equal
 import YtkProofs.Heap
+import YtkProofs.GapEqualPlain
 
 namespace Ytk.C05
 
@@ -244,5 +245,31 @@ theorem nonvacuous_heap_ops :
   decide
 
 end heap
+
+end Ytk.C05
+
+/-! ## gap7a: Equals against the plain values (the clause as the quantifier text writes it) -/
+namespace Ytk.C05
+
+/-- `x.Equals(y) <=> deepEqual(plain(x), plain(y)) && kind(x) == kind(y)` with `plain` = C01's
+    `encodeNode` (AsMap / AsSlice / leaf value): on nodes constructible through the API, Equals holds
+    exactly when the plain values are equal — and equal plain values already force equal kinds
+    (a Go map is never deep-equal to a slice or a scalar), so the kind conjunct is implied. -/
+theorem equals_iff_plain (x y : Node) (hx : x.Valid) (hy : y.Valid) :
+    equals x y = true ↔ encodeNode x = encodeNode y ∧ x.kind = y.kind := by
+  rw [equals_iff x y hx hy]
+  constructor
+  · intro h; subst h; exact ⟨rfl, rfl⟩
+  · intro h; exact encodeNode_inj x y h.1
+
+/-- … the kind conjunct is redundant (for ALL nodes, valid or not) -/
+theorem plain_eq_same_kind (x y : Node) (h : encodeNode x = encodeNode y) : x.kind = y.kind :=
+  kind_of_encode_eq x y h
+
+/-- Equals is false across kinds even when both sides are "empty": `{}` vs `[]` vs null. -/
+theorem nonvacuous_equals_iff_plain :
+    equals (.cont []) (.list []) = false ∧ encodeNode (.cont []) ≠ encodeNode (.list []) ∧
+    equals (.list []) Node.null = false ∧ equals exDoc exDoc = true ∧ encodeNode exDoc = encodeNode exDoc := by
+  decide
 
 end Ytk.C05
